@@ -1,6 +1,6 @@
 SPECIFICATION TraceSpec
 CONSTANTS
-  Tree <- MCTree
-  ProgSet <- MCProgsA
+  Tree <- MCTreeB
+  ProgSet <- MCProgsB
 INVARIANTS TraceInv
 CHECK_DEADLOCK FALSE
